@@ -1,6 +1,61 @@
+import GrafeoModel.Model.SparqlTx
 import GrafeoModel.Driver.Proto
-/-! stream `sptx` (stub; replaced by its builder) -/
-open Grafeo Grafeo.Proto
+/-! stream `sptx`: `sptx run <script>`; the script is a `;`-separated list of
+`b<s>` `c<s>` `r<s>` `i<s>:<k>` `d<s>:<k>` `q<s>` `a<s>:<k>` (sessions 0..2, pool triples 0..5).
+Output: the result of every b/c/r/q/a step joined with `|` (`ok`, `err`, sorted code list,
+`e` = no rows); `none` when the script prints nothing. -/
+open Grafeo Grafeo.Proto Grafeo.Rdf Grafeo.SparqlTx
 namespace DriverSparqlTx
-def handle (_args : List String) : Option Out := none
+
+def parseSess (s : String) : Option Nat :=
+  match s.toNat? with
+  | some n => if n < 3 then some n else none
+  | none => none
+
+def parseST (s : String) : Option (Nat × Triple) :=
+  match s.splitOn ":" with
+  | [a, b] =>
+    match parseSess a, b.toNat? with
+    | some n, some k => if k < 6 then some (n, tripleOf k) else none
+    | _, _ => none
+  | _ => none
+
+def parseStep (tok : String) : Option Step :=
+  match tok.toList with
+  | [] => none
+  | c :: rest =>
+    let r := String.ofList rest
+    if c == 'b' then (parseSess r).map Step.begin
+    else if c == 'c' then (parseSess r).map Step.commit
+    else if c == 'r' then (parseSess r).map Step.rollback
+    else if c == 'q' then (parseSess r).map Step.query
+    else if c == 'i' then (parseST r).map (fun p => Step.ins p.1 p.2)
+    else if c == 'd' then (parseST r).map (fun p => Step.del p.1 p.2)
+    else if c == 'a' then (parseST r).map (fun p => Step.ask p.1 p.2)
+    else none
+
+def showRes : Res → String
+  | .ok => "ok"
+  | .err => "err"
+  | .rows [] => "e"
+  | .rows ts => natList (sortNat (ts.map codeOf))
+
+def showAll (rs : List Res) : String :=
+  if rs.isEmpty then "none" else joinWith "|" (rs.map showRes)
+
+def handle (args : List String) : Option Out :=
+  match args with
+  | ["run", script] =>
+    match (script.splitOn ";").mapM parseStep with
+    | none => none
+    | some steps =>
+      let m := showAll (run steps).2
+      let s := showAll (specRun steps).2
+      let comm := showAll (commOnlyFrom Spec.init steps)
+      let snap := showAll (snapOnlyFrom Spec.init steps)
+      let sigs := (if m != s then ["rdf-own-writes-invisible"] else []) ++
+                  (if comm != snap then ["rdf-read-not-snapshot"] else [])
+      some { model := m, spec := s, sig := if sigs.isEmpty then "-" else joinWith "+" sigs }
+  | _ => none
+
 end DriverSparqlTx
